@@ -24,6 +24,9 @@
 (* Variant = "code"      the driver as it is in the repository             *)
 (*           "norescan"  a guarded hit is taken as it is (repaired defect: *)
 (*                       the start was truncated at the guard)             *)
+(*           "rescaneq"  rescan only when the guarded hit lies ON the guard  *)
+(*                       (a seeded change: a hit above the guard can still *)
+(*                       hide a start below it)                            *)
 (*           "lastcand"  Find starts from the LAST occurrence (repaired    *)
 (*                       defect: rightmost instead of leftmost match)      *)
 (***************************************************************************)
@@ -85,7 +88,8 @@ FindAtLoop(prog, nc, S, msz, h, at, searchStart, minStart) ==
   ELSE IF msz THEN DotStar(S, h, at, pos)
   ELSE LET sEnd == pos + Len(S)
            r    == RevLimited(prog, h, at, sEnd, minStart)
-           ms   == IF r > 0 /\ minStart > at /\ Variant # "norescan" THEN RevFull(prog, h, at, sEnd) ELSE r
+           ms   == IF r > 0 /\ minStart > at /\ Variant # "norescan" /\ (Variant = "rescaneq" => r = minStart)
+                   THEN RevFull(prog, h, at, sEnd) ELSE r
        IN IF ms > 0 THEN Forward(prog, nc, h, ms)
           ELSE IF r = Quadratic THEN Two(FindP(prog, nc, h, at, FALSE))
           ELSE IF pos >= Len(h) THEN <<>>
